@@ -1,0 +1,16 @@
+//go:build verif
+
+package main
+
+// Verification hook (build tag "verif" only): a monitor can install a
+// function that is called at named points, say to widen a window
+// between two steps with a delay.
+
+// VerifPoint, if set, is called by verifPoint.
+var VerifPoint func(name string)
+
+func verifPoint(name string) {
+	if f := VerifPoint; f != nil {
+		f(name)
+	}
+}
